@@ -12,6 +12,9 @@ FLAV = {
     "g": "Favour the SMALLEST possible changes - one token or one line: a flipped comparison or boundary (< vs <=, > vs >=), an off-by-one, swapped arguments, a wrong default value, a dropped `not`, `and` vs `or`, a wrong variable of the same type, a removed statement, an `if` that became unconditional - at sites the property depends on. Each must still pass all 64 tests and need something specific to show.",
     "i": "Make every change in a file OTHER than the ones the property record lists under anchors.files (for example the parser, the formatters, the Scaffold/Assembly/Fragment/Gap data classes, build utilities, statistics, the simple FASTA helpers, the other command-line scripts) - a helper the anchored code calls or a module whose state it shares - so that the property as stated breaks although the anchored functions themselves are untouched.",
     "h": "Favour changes to recently added or recently modified code (see `git log -p -3` in the worktree) and to the way older code interacts with it: a later 'simplification' or 'optimisation' of a recent fix that quietly removes what made it correct, while keeping the obvious half of the fix intact.",
+    "j": "Favour changes to the ORDER and COMPLETENESS of what the command-line tools do: operations reordered, an early return or early exit added, a resource left open or closed too early, a later output depending on an earlier one, partial results left behind, defaults of options changed, an option no longer forwarded to one of several similar calls.",
+    "k": "Favour changes where every file that is written is written correctly, but the DECISION logic is wrong in particular histories or states: which of several files is consulted, in which order, what happens when only one of them is missing, equal timestamps, a file replaced rather than edited, a leftover from an interrupted run, a path reached through a link.",
+    "l": "Favour changes whose effect depends on SCALE or on a size relation that small examples do not reach: thresholds inside helpers (for example a fast path above some size), behaviour that differs only when a length is an exact multiple of another, only for lines wider or narrower than the buffer, only beyond some number of records, rows or chunks, only for the second and later records of a file.",
 }
 T = """You are helping to evaluate a verification harness by writing *seeded defects* for an open-source Python project (sanger-tol/agp-tpf-utils: CLI utilities for AGP/TPF genome assembly files with a streaming FASTA indexer/writer). This is authorised mutation-testing work on a scratch copy; nothing you write is ever merged.
 
